@@ -236,6 +236,14 @@ pub fn execute_case(scen: &dyn Scenario, case: &Value, trace: bool) -> (Ctx, Res
     if trace {
         ctx.trace = Some(Vec::new());
     }
+    // one case in eight is preceded by refused calls on the same thread (a pure function of the
+    // case, so replays reproduce it): failed calls must leave no trace in later ones
+    let sig = crate::scen::case_sig(case);
+    if sig % 8 == 0 {
+        sut::poison_thread(sig);
+        ctx.bump("fired_refused_calls_before_case", 1);
+        ctx.trace(|| "preceded by refused calls on the same thread (poison)".to_string());
+    }
     let r = catch_unwind(AssertUnwindSafe(|| scen.execute(case, &mut ctx)));
     match r {
         Ok(res) => (ctx, res, None),
